@@ -35,6 +35,27 @@ def run(check, tier):
             check.nontriv(res["case"])
         for o in res["oracle"]:
             check.violation(o["what"], {"input": res["case"], "oracle": [o]}, finding=o.get("finding"))
+    # a fail() guarded by a function that errors: under every error policy the verdict is False exactly when the policy says fail
+    import errors_suite as E
+
+    ecases = E.gen_run_cases(check.seed, tier)[: 400 if tier == "quick" else 8000]
+    er = rng(check.seed, "C04-guard")
+    for c in ecases:
+        c["kind"] = er.choice(E.GUARD_KINDS)
+    for res in run_cases("errors_suite", "case_run", ecases, chunk=16):
+        if "infra_error" in res:
+            check.infra.append(res["infra_error"] + res.get("trace", "")[-700:])
+            continue
+        if "parse_error" in res:
+            check.count("guard_parse_error")
+            continue
+        check.evaluations += 1
+        check.count("guarded_fail_runs")
+        if res.get("nontrivial"):
+            check.count("guarded_fail_runs_with_errors")
+        for o in res["oracle"]:
+            if o["what"].startswith("fail flag"):
+                check.violation("a fail() guarded by an erroring function: " + o["what"], {"input": res["case"], "csvpath": res["text"], "oracle": [o]})
     check.extra["rule"] = ("generated csvpaths with conditional fail()/fail_and_stop() and per-line valid()/failed() pushes x generated files, judged against S; "
                            "plus named-paths groups (members that fail, error under policies with/without fail, or never run) checked for "
                            "results_manager.is_valid and the run manifest's all_valid being the conjunction of the members' verdicts")
